@@ -50,7 +50,7 @@ func rawDump(m *memfs.MemFS) string { return m.VerifDump() }
 
 func corrRofs(seed uint64, tier string, replay []string) *lib.Result {
 	res := &lib.Result{Property: "C09",
-		Rule: "random histories of every VFS/File call (OpenFile with random flag values, Sub followed by calls on the result, handle methods) issued through RoFS over a pre-filled MemFS; the base's whole node graph (contents, modes, owners, modification times) is dumped before and after EVERY call; a mutating call must fail with a permission-class error, a read-only call must return what the base returns; a case is one call; distinct non-trivial = distinct (call kind, outcome)"}
+		Rule: "random histories of every VFS/File call (OpenFile with random flag values, Sub followed by calls on the result, handle methods) issued through RoFS over a pre-filled MemFS; the base's whole node graph (contents, modes, owners, modification times) is dumped before and after EVERY call; a mutating call must fail with a permission-class error, a read-only call must return what the base returns; first, once, every mutating call with arguments that ask for NO change (current mode / owner / size, -1, zero time, existing directory, missing name, empty data, rename onto itself, every write flag of OpenFile) on every kind of node and through read-only handles; a case is one call; distinct non-trivial = distinct (call kind, outcome)"}
 	st := lib.NewStats()
 	nh, nl := 150, 40
 	if tier == "thorough" {
@@ -58,6 +58,77 @@ func corrRofs(seed uint64, tier string, replay []string) *lib.Result {
 	}
 	r := lib.NewRng(seed*31337 + 9)
 	seen := map[string]bool{}
+	if replay == nil {
+		// calls whose arguments ask for NO change (current mode, current owner, -1, current size, zero or current
+		// time, an existing directory, a missing name, empty data, rename onto itself): a read-only file system refuses
+		// them like any other mutating call, and the base stays as it is — every such call on every kind of node
+		_ = avfs.SetUMask(0o022)
+		base := memfs.New()
+		prefill(base, lib.NewRng(2))
+		w := newFsOn(rofs.New(base))
+		hx := lib.Hex
+		var noop []string
+		for _, p := range []string{"/a/f", "/a/b", "/l", "/h", "/missing", "/a/big", "/"} {
+			mode, uid, gid, size := 0o644, 0, 0, 0
+			if fi, err := base.Stat(p); err == nil {
+				mode, size = int(fi.Mode().Perm()), int(fi.Size())
+				if st := base.ToSysStat(fi); st != nil {
+					uid, gid = st.Uid(), st.Gid()
+				}
+			}
+			noop = append(noop, fmt.Sprintf("chmod %s %d", hx(p), mode), fmt.Sprintf("chown %s -1 -1", hx(p)), fmt.Sprintf("chown %s %d %d", hx(p), uid, gid),
+				fmt.Sprintf("lchown %s -1 -1", hx(p)), fmt.Sprintf("lchown %s %d %d", hx(p), uid, gid), fmt.Sprintf("chtimes %s 0", hx(p)),
+				fmt.Sprintf("truncate %s %d", hx(p), size), fmt.Sprintf("mkdirall %s 493", hx(p)), fmt.Sprintf("mkdir %s 493", hx(p)),
+				fmt.Sprintf("remove %s", hx(p+"/nothing")), fmt.Sprintf("removeall %s", hx(p+"/nothing")), fmt.Sprintf("rename %s %s", hx(p), hx(p)),
+				fmt.Sprintf("link %s %s", hx(p), hx(p)), fmt.Sprintf("symlink %s %s", hx(p), hx(p)), fmt.Sprintf("writefile %s - 420", hx(p)),
+				fmt.Sprintf("openfile %s 1 0", hx(p)), fmt.Sprintf("openfile %s 2 0", hx(p)), fmt.Sprintf("openfile %s 1024 0", hx(p)), fmt.Sprintf("openfile %s 512 0", hx(p)),
+				fmt.Sprintf("openfile %s 64 420", hx(p)), fmt.Sprintf("openfile %s 1052672 0", hx(p)))
+		}
+		// through read-only handles of a file and of a directory
+		for _, p := range []string{"/a/f", "/a/b"} {
+			o := w.call("fs 0 openfile " + hx(p) + " 0 0")
+			if strings.HasPrefix(o, "ok h ") {
+				hd := strings.Fields(o)[2]
+				size := 0
+				if fi, err := base.Stat(p); err == nil {
+					size = int(fi.Size())
+				}
+				for _, q := range []string{fmt.Sprintf("truncate %d", size), "write -", "writeat - 0", "chmod 420", "chown -1 -1", "sync"} {
+					noop = append(noop, "file "+hd+" "+q)
+				}
+			}
+		}
+		var hist lib.History
+		for _, q := range noop {
+			l := "fs 0 " + q
+			f := strings.Fields(l)
+			before := rawDump(base)
+			rw := w.call(l)
+			after := rawDump(base)
+			hist = append(hist, l)
+			op := f[2]
+			if op == "file" {
+				op = "file." + f[4]
+			}
+			st.Count(op+"|"+lib.OutcomeClass(rw)+"|noop", op+"|noop|"+lib.OutcomeClass(rw))
+			bad := ""
+			switch {
+			case rw == "panic" || rw == "hang":
+				bad = "the call " + rw + "s"
+			case before != after:
+				bad = "the underlying file system changed"
+			case f[2] == "openfile" && (f[4] == "0" || f[4] == "1052672"):
+				// O_RDONLY (with O_CLOEXEC-like extra bits or not) is a read-only open
+			case !permClass(rw) && rw != "err invalid" && rw != "err closed":
+				bad = "a mutating call whose arguments ask for no change did not fail with a permission-class error"
+			}
+			if bad != "" && !seen["noop|"+op] {
+				seen["noop|"+op] = true
+				res.Mismatches = append(res.Mismatches, lib.Mismatch{Kind: "violation", Class: "rofs.noop." + op, What: "through RoFS: " + bad + " at " + l + " -> " + rw,
+					History: append(lib.History{}, hist...), Impl: []string{rw, before, after}})
+			}
+		}
+	}
 	for k := 0; k < nh; k++ {
 		_ = avfs.SetUMask(0o022)
 		base := memfs.New()
@@ -143,7 +214,7 @@ var errInjectedWrap = errors.New("injected")
 // corrFailfs: FailFS with no failure function ≟ its base (twin instance), and single-fault plans.
 func corrFailfs(seed uint64, tier string, replay []string) *lib.Result {
 	res := &lib.Result{Property: "C12",
-		Rule: "random histories through FailFS over MemFS, in lockstep with a twin MemFS driven directly: (1) no failure function: outcomes and node graphs equal after every call; (2) for every history every plan 'fail the k-th consulted primitive' (k over all consultations of the history, exhaustive per history): the failing call returns exactly the injected error and leaves the base untouched, earlier calls behave as on the base, and when the failed primitive is the first of its call all LATER calls (on handles too) behave as in the history without that call; (3) ReadOnlyFunc: the base never changes; (5) every composite call of the history (Create, WriteFile, ReadFile, ReadDir, MkdirTemp) that succeeds without faults is re-run with EVERY invocation of a primitive it is built on (Mkdir / OpenFile / FileWrite / FileRead / FileReadDir) made to fail: it must return the injected error, and leave the base unchanged when the primitive is its first; (4) announcement: with a second FailFS between the wrapper and the base, the primitives that reach the lower layer during each call (temp-name calls included) are exactly those shown to the upper failure function; a case is one call under one plan; distinct non-trivial = distinct (call kind, outcome, plan kind)"}
+		Rule: "random histories — and the bounded-exhaustive scenarios file-admin (all), dir-handle and namespace (every 7th) of small.go — through FailFS over MemFS, in lockstep with a twin MemFS driven directly: (1) no failure function: outcomes and node graphs equal after every call; (2) for every history every plan 'fail the k-th consulted primitive' (k over all consultations of the history, exhaustive per history): the failing call returns exactly the injected error and leaves the base untouched, earlier calls behave as on the base, and when the failed primitive is the first of its call all LATER calls (on handles too) behave as in the history without that call; (3) ReadOnlyFunc: the base never changes; (6) with a failure function that refuses everything, every call of the history (issued on the state the history has reached) returns the injected error and leaves the base unchanged; (5) every composite call of the history (Create, WriteFile, ReadFile, ReadDir, MkdirTemp) that succeeds without faults is re-run with EVERY invocation of a primitive it is built on (Mkdir / OpenFile / FileWrite / FileRead / FileReadDir) made to fail: it must return the injected error, and leave the base unchanged when the primitive is its first; (4) announcement: with a second FailFS between the wrapper and the base, the primitives that reach the lower layer during each call (temp-name calls included) are exactly those shown to the upper failure function; a case is one call under one plan; distinct non-trivial = distinct (call kind, outcome, plan kind)"}
 	st := lib.NewStats()
 	nh, nl := 60, 25
 	if tier == "thorough" {
@@ -158,7 +229,20 @@ func corrFailfs(seed uint64, tier string, replay []string) *lib.Result {
 		seen[cls] = true
 		res.Mismatches = append(res.Mismatches, lib.Mismatch{Kind: "violation", Class: cls, What: what, History: append(lib.History{}, hist...), Impl: extra})
 	}
-	for k := 0; k < nh; k++ {
+	// after the random histories: bounded-exhaustive scenarios of small.go (one level shallower), under every plan too
+	var scripts []lib.History
+	if replay == nil {
+		for _, scn := range []string{"file-admin", "dir-handle", "namespace"} {
+			sh, _ := smallHistoriesDepth(tier, scn, -1)
+			for i, h := range sh {
+				if scn != "file-admin" && i%7 != 0 {
+					continue // a sample of the larger scenarios: every history is run under all its plans
+				}
+				scripts = append(scripts, h[1:len(h)-1])
+			}
+		}
+	}
+	for k := 0; k < nh+len(scripts); k++ {
 		// generate the history on a scratch instance (state-aware), then replay it under each plan
 		_ = avfs.SetUMask(0o022)
 		gr := r.Split()
@@ -169,6 +253,8 @@ func corrFailfs(seed uint64, tier string, replay []string) *lib.Result {
 		var hist lib.History
 		if replay != nil {
 			hist = replay
+		} else if k >= nh {
+			hist = scripts[k-nh]
 		} else {
 			for i := 0; i < nl; i++ {
 				l := g.next()
@@ -425,6 +511,53 @@ func corrFailfs(seed uint64, tier string, replay []string) *lib.Result {
 					} else if before != after && (prim == "Mkdir" || prim == "OpenFile") {
 						report("failfs.composite-fault-effect."+f[2]+"."+prim, fmt.Sprintf("%q made to fail at its first primitive %s changed the base", l, prim), h5[:i+1], o)
 					}
+				}
+			}
+		}
+		// (6) the failure function refuses EVERYTHING: every call that goes through the file system or one of its handles
+		// returns the injected error (whatever its arguments: empty data, unchanged sizes, …) and the base never changes
+		{
+			base := memfs.New()
+			prefill(base, lib.NewRng(1))
+			ff := failfs.New(base)
+			w := newFsOn(ff)
+			refuse := false
+			_ = ff.SetFailFunc(func(_ avfs.VFSBase, _ avfs.FnVFS, _ *failfs.FailParam) error {
+				if refuse {
+					return errInjectedWrap
+				}
+				return nil
+			})
+			for i, l := range hist {
+				f := strings.Fields(l)
+				op := f[2]
+				if op == "file" && len(f) > 4 {
+					op = "file." + f[4]
+				}
+				// the call under "refuse everything" on a copy of the state reached so far: replayed prefix, then refused call
+				before := rawDump(base)
+				refuse = true
+				o := w.call(l)
+				refuse = false
+				after := rawDump(base)
+				st.Count(op+"|"+lib.OutcomeClass(o)+"|refuse-all", op+"|refuse-all|"+lib.OutcomeClass(o))
+				exempt := op == "getwd" || op == "setumask" || op == "setuser" || op == "file.name" || op == "dump" || op == "snap" || op == "viewinfo" ||
+					o == "err closed" || o == "err badhandle" || strings.HasPrefix(o, "err nohandle")
+				if before != after {
+					report("failfs.refuse-all-effect."+op, fmt.Sprintf("with a failure function that refuses everything the call %q changed the base (%q)", l, o), hist[:i+1], o)
+				} else if !exempt && !strings.Contains(o, "injected") && o != "panic" && o != "hang" {
+					cls := "failfs.refuse-all-ignored." + op
+					if !seen[cls] {
+						seen[cls] = true
+						res.Mismatches = append(res.Mismatches, lib.Mismatch{Kind: "known", Class: cls,
+							What:    fmt.Sprintf("with a failure function that refuses everything the call %q returned %q instead of the injected error", l, o),
+							History: append(lib.History{}, hist[:i+1]...), Impl: []string{o}})
+					}
+				}
+				// then really perform the call so that the next one finds the state of the history
+				w.call(l)
+				if w.dead {
+					break
 				}
 			}
 		}
